@@ -91,14 +91,20 @@ def numeric_start(tok):
 
 
 def readings(tok):
-    try:
-        val = float(tok)
-    except ValueError:
-        return None
-    try:
-        return (val, int(val), round(val))
-    except (ValueError, OverflowError):
-        return None
+    '''(to_float(tok), int(float(tok)), round(to_float(tok)),
+    int(to_float(tok))) with the repository's to_float; None where the call
+    raises.'''
+    from MIP.mip.datacard import to_float
+
+    def attempt(fun):
+        try:
+            return fun()
+        except (ValueError, OverflowError):
+            return None
+    out = (attempt(lambda: to_float(tok)), attempt(lambda: int(float(tok))),
+           attempt(lambda: round(to_float(tok))),
+           attempt(lambda: int(to_float(tok))))
+    return None if all(v is None for v in out) else out
 
 
 class ImplDeck:
@@ -113,6 +119,7 @@ class ImplDeck:
         from t4_geom_convert.Kernel.Transformation.Transformation import \
             normalize_transform
         from t4_geom_convert.Kernel.Utils import normalize_float
+        from MIP.mip.datacard import to_float
         self.text = text
         self.lattice_params = lattice_params or {}
         self.setup_error = None
@@ -196,6 +203,11 @@ class ImplDeck:
                 pass
         self.norm = []
         seen_keys = set()
+        try:
+            self.norm.append(([], ('ok', [float(v) for v in
+                                          normalize_transform([])])))
+        except Exception as exc:               # pylint: disable=broad-except
+            self.norm.append(([], ('err', exc_class(exc))))
         for run in self.runs:
             if len(run) > 16:
                 continue
@@ -204,7 +216,7 @@ class ImplDeck:
                 if len(sub) in (0, 1, 3):
                     continue
                 try:
-                    vals = [float(t) for t in sub]
+                    vals = [to_float(t) for t in sub]
                 except ValueError:
                     continue
                 starred = (vals[:3] + [gen.to_cos(v) for v in vals[3:12]]
@@ -258,8 +270,8 @@ def coq_cell(cell):
 
 
 def coq_case(obs):
-    num = clist(cpair(cstr(t), cpair(f'Some {cfloat(r[0])}',
-                                     f'Some {cz(r[1])}', f'Some {cz(r[2])}'))
+    num = clist(cpair(cstr(t), cpair(copt(r[0], cfloat), copt(r[1], cz),
+                                     copt(r[2], cz), copt(r[3], cz)))
                 for t, r in obs.num.items())
     trs = clist(cpair(cz(k), coq_fl(v)) for k, v in obs.transforms.items())
     norm = clist(cpair(coq_fl(k), (f'Ok {coq_fl(v[1])}' if v[0] == 'ok'
@@ -446,7 +458,11 @@ EDGE_BUT = [
     'trcl=9', 'trcl=1.0', 'trcl=(1 2)', '*trcl=(1 2)', '*trcl=(1 2 3 4)',
     'trcl=(1 0 0 1 0 0 0 1 0 0 0 1)', '*trcl=(1 0 0 0 90 90 90 0 90 90 90 0)',
     '*trcl=(1 2 3 0 90 90 90 0 90 90 90 0 1)', 'trcl=(1 2 3) trcl=(4 5 6)',
-    'trcl=(1 x 3)', '*trcl=(1 2 3 x)', 'trcl',
+    'trcl=(1 x 3)', '*trcl=(1 2 3 x)', 'trcl', '*trcl', '*TRCL u=3', '*fill=2',
+    '*FILL=1 imp:n=1', '*fill=2 trcl=(1 2 3)', 'imp:n=1.0+0', 'imp:n=2.5d-1',
+    'trcl=(1.0+0 2 3)', 'trcl=1.0+0', 'fill=2 (1.5d0 0 0)', 'fill=2 (3.0+0)',
+    'lat=1 fill=0:1 1.0+0 2', 'u=1.0+0', 'fill=1.0+0',
+    '*trcl=(1.0+0 2 3 0 9.0+1 90 90 0 90 90 90 0)',
     '*trcl=(1 2 3 0 90 90 90 0 90 90 90 0 -1)',
     '*fill=2 (0 0 0 30 60 90 120 30 90 90 90 0 -1)',
     '*fill=2 (0 0 0 30 60 90 120 30 90 90 90 0 1)', 'mat=0', 'MAT=0 rho=-1.0',
